@@ -417,11 +417,101 @@ fn unlinked_accumulator_proof<S: ShortGroupSignatureScheme + 'static>(em: &mut E
     }
 }
 
+/// A response vector one scalar too long: if the verifier pairs points and responses positionally and only bounds the
+/// length from below, the scalar that multiplies the public part of the equation is the surplus response instead of
+/// −challenge, and the proof of knowledge stops depending on the challenge. The holder then runs the *real* prover for a
+/// rescaled challenge λ = c·v'/m (c = the verifier's challenge over the forged transcript), appends −λ, and presents the
+/// commitment (v'/m)·C: the response of the claim reads nonce + c·v', i.e. the commitment statement "proves" a value v'
+/// the issuer never signed. Any acceptance is a violation (C' is by construction a commitment to v' ≠ m).
+fn surplus_response_forgery<S: ShortGroupSignatureScheme + 'static>(em: &mut Emitter, rng: &mut Rng, suite: &str) {
+    use std::cell::Cell;
+    use std::rc::Rc;
+    for round in 0..em.n(1, 4) {
+        let age = rng.range(18, 60);
+        let mix = Mix { n_creds: 1, n_claims: 3 + (round % 3), age, disclosed: vec![if round % 2 == 0 { vec![] } else { vec!["name".to_string()] }], commitment: Some(2), ..Default::default() };
+        let scn = Scn::<S>::build(rng, &mix);
+        let sid = scn.sig_ids[0].clone();
+        let m = scn.bundles[0].credential.claims[2].to_scalar();
+        let v_forged = NumberClaim::from((age + 1 + rng.range(0, 60)) as isize).to_scalar();
+        let rho = v_forged * Option::<Scalar>::from(m.invert()).unwrap();
+        let wide = |x: &Scalar| -> Option<[u8; 64]> {
+            let mut le = [0u8; 64];
+            le[..32].copy_from_slice(&x.to_le_bytes());
+            if Scalar::from_bytes_wide(&le) == *x {
+                return Some(le);
+            }
+            let mut be = [0u8; 64];
+            be[32..].copy_from_slice(&x.to_be_bytes());
+            if Scalar::from_bytes_wide(&be) == *x {
+                return Some(be);
+            }
+            None
+        };
+        let got: Rc<Cell<Option<(Scalar, Scalar)>>> = Rc::new(Cell::new(None));
+        let g2 = got.clone();
+        merlin::vlog::take();
+        merlin::vlog::set_override(Some(Box::new(move |tid, label, log| {
+            let main = log.iter().find(|e| e.kind == 2 && e.label == b"credx presentation").map(|e| e.tid);
+            if label != b"challenge bytes" || main != Some(tid) {
+                return None;
+            }
+            let mut items = main_items(log);
+            // the commitment statement's item (the BBS proof hashes its own `t` under the same label)
+            let at = items.iter().position(|it| it.0.is_empty() && it.1 == b"com0").map(|i| i + 1);
+            for (i, it) in items.iter_mut().enumerate() {
+                if Some(i) == at && it.0 == b"commitment" {
+                    if let Some(c) = <[u8; 48]>::try_from(it.1.as_slice()).ok().and_then(|b| Option::<G1Affine>::from(G1Affine::from_compressed(&b))) {
+                        it.1 = (G1Projective::from(c) * rho).to_compressed().to_vec();
+                    }
+                }
+            }
+            merlin::vlog::enable(false);
+            let c = Scalar::from_bytes_wide(&challenge_of(&items));
+            merlin::vlog::enable(true);
+            let lambda = c * rho;
+            g2.set(Some((c, lambda)));
+            wide(&lambda).map(|b| b.to_vec())
+        })));
+        merlin::vlog::enable(true);
+        let r = call(|| Presentation::create(&scn.credentials, &scn.schema, &scn.nonce));
+        merlin::vlog::enable(false);
+        merlin::vlog::set_override(None);
+        merlin::vlog::take();
+        let (p, c, lambda) = match (r, got.get()) {
+            (Out::Ok(p), Some((c, l))) if p.challenge == l => (p, c, l),
+            _ => {
+                em.count("surplus-response:steering-failed");
+                continue;
+            }
+        };
+        let mut v = serde_json::to_value(&p).unwrap();
+        let com = v["proofs"]["com0"]["Commitment"]["commitment"].as_str().and_then(g1_of_hex);
+        let com = match com {
+            Some(c) => c,
+            None => continue,
+        };
+        v["proofs"]["com0"]["Commitment"]["commitment"] = json!(g1_hex_c(&(com * rho)));
+        v["challenge"] = json!(sc_hex(&c));
+        for (name, extra) in [("surplus-minus-lambda", Some(-lambda)), ("surplus-lambda", Some(lambda)), ("no-surplus", None)] {
+            let mut w = v.clone();
+            if let (Some(x), Some(a)) = (extra, w["proofs"][&sid]["Signature"]["pok"]["proof"].as_array_mut()) {
+                a.push(json!(sc_hex(&x)));
+            }
+            if let Out::Ok(q) = pres_from_value::<S>(&w) {
+                judge(em, "c05", suite, &format!("commitment-to-unsigned-value:{}", name), &scn, &q, &format!("rescaled challenge, forged value {}", sc_hex(&v_forged)));
+            } else {
+                em.count("surplus-response:undecodable");
+            }
+        }
+    }
+}
+
 pub fn gen_c05(em: &mut Emitter, rng: &mut Rng) {
     em.rule = "deviating holders owning valid credentials, per statement kind (commitment, range via commitment, verifiable encryption, encrypt-and-decrypt, \
                revocation, membership): the real prover runs the predicate sub-protocol on another hidden claim of the same credential / on the other \
                credential and is steered with the verifier's transcript for the requested claim; the proof's disclosed-index list is then put in every \
-               order; predicate proofs are transplanted between runs. oracle: accepted although the value at the referenced claim differs".into();
+               order; predicate proofs are transplanted between runs; \
+               the real prover run for a rescaled challenge with a surplus response appended and the commitment rescaled to an unsigned value. oracle: accepted although the value at the referenced claim differs".into();
     c05_suite::<Bbs>(em, rng, "bbs");
     c05_suite::<Ps>(em, rng, "ps");
     let base = 2 * em.n(12, 120);
@@ -436,6 +526,12 @@ pub fn gen_c05(em: &mut Emitter, rng: &mut Rng) {
     }
     if em.mine(base + 3) {
         unlinked_accumulator_proof::<Ps>(em, &mut rng.sub(8004), "ps");
+    }
+    if em.mine(base + 4) {
+        surplus_response_forgery::<Bbs>(em, &mut rng.sub(8005), "bbs");
+    }
+    if em.mine(base + 5) {
+        surplus_response_forgery::<Ps>(em, &mut rng.sub(8006), "ps");
     }
 }
 
